@@ -8,7 +8,7 @@ from fractions import Fraction
 
 from hypothesis import strategies as st
 
-from vp.core import Disc, Recorder, derive_seed, hyp_collect, hyp_shrink, escape_bucket, canon
+from vp.core import Disc, Recorder, derive_seed, hyp_collect, hyp_shrink, escape_bucket
 from vp.gen import atoms as A
 from vp.ref import numeric as N
 
@@ -490,7 +490,7 @@ def jobs(tier, seed):
         for i in range(3):
             out.append({'check': 'grid2', 'mode': '1.0', 'form': 'lit', 'lo': n10 * i // 3, 'hi': n10 * (i + 1) // 3})
     nb, nu = (8, 3) if q else (12, 4)
-    per_b, per_u = (5000, 5000) if q else (100000, 80000)
+    per_b, per_u = (5000, 5000) if q else (60000, 50000)
     for i in range(nb):
         out.append({'check': 'binary', 'shard': i, 'n': per_b, 'seed': derive_seed(seed, 'C06', 'binary', i)})
     for i in range(nu):
